@@ -540,6 +540,10 @@ func c37Gen(r *vh.Rand, tier string, n int) []c37In {
 		k = 4
 	}
 	paths := c37Paths(4)
+	if tier != "thorough" {
+		// quick: every clean path of length <= 3 plus six longer ones (two segments, trailing slash)
+		paths = append(c37Paths(3), "/a/b", "/a/a", "/b/a", "/aab", "/ab/", "/a/b/")
+	}
 	for _, s := range c37Enum(c37Tokens, k) {
 		ins = append(ins, c37In{Kind: "pat", Pattern: "/" + s, Paths: paths})
 	}
